@@ -7,7 +7,7 @@ symbolically.  `pow2`, `be`, `ipow`, `gcd`, `bitlen` ... are spec forms (vf/pyvc
 SIG = {'isqrt': {'sort': 'int', 'uf': True,        # the integer square root exists (uninterpreted; its defining property as fact)
                  'facts': ['v >= 0 ==> (result >= 0 and result * result <= v and v < (result + 1) * (result + 1))']},
        'is_floor_quotient': 'bool', 'is_residue': 'bool', 'is_bit_size': 'bool', 'is_byte_size': 'bool', 'is_isqrt': 'bool',
-       'random_top': 'int', 'random_value': 'int', 'candidate': 'int', 'legacy_candidate': 'int', 'bits_candidate': 'int', 'horner4': 'int', 'horner8': 'int'}
+       'random_top': 'int', 'random_value': 'int', 'candidate': 'int', 'legacy_candidate': 'int', 'bits_candidate': 'int', 'horner4': 'int', 'horner8': 'int', 'lcm': 'int'}
 
 
 def is_floor_quotient(a, d, q):
@@ -38,6 +38,13 @@ def is_byte_size(v, n):
 
 def isqrt(v):
     pass
+
+
+def lcm(a, b):
+    """least common multiple of two integers (0 if either is 0)"""
+    if a == 0 or b == 0:
+        return 0
+    return abs(a * b) // gcd(a, b)
 
 
 def is_isqrt(v, r):
